@@ -60,6 +60,8 @@ type Scenario struct {
 	MaxEventsPerSlot int
 	// FaultOps lists the operations whose calls are ok/fail choice points inside a scan.
 	FaultOps map[string]bool
+	// FaultFilter, when set, further restricts which calls are choice points.
+	FaultFilter func(h *Hist, op, target string) bool
 	// KillOps lists the operations at which the process may additionally be killed.
 	KillOps map[string]bool
 	// FaultsAtBuild also offers faults while the provider is being (re)built.
@@ -110,6 +112,7 @@ type Hist struct {
 	builds              int
 	scanActive          bool
 	lastLifetimeScanned int
+	journalMark         int
 	Scans               int64
 	Keys                []string // canonical state key after each slot
 	OnSlotEnd           func(h *Hist)
@@ -126,6 +129,9 @@ func (h *Hist) Decide(op, target string) sim.Verdict {
 		return sim.OK
 	}
 	if !h.S.FaultOps[op] {
+		return sim.OK
+	}
+	if h.S.FaultFilter != nil && !h.S.FaultFilter(h, op, target) {
 		return sim.OK
 	}
 	n := 2
@@ -367,7 +373,8 @@ func (h *Hist) scan() {
 	h.scanActive = false
 	w.EndScan()
 	ctx.Res = res
-	ctx.Entries = w.ScanEntries(w.Scan)
+	ctx.Entries = append([]sim.Entry(nil), w.J[h.journalMark:]...)
+	h.journalMark = len(w.J)
 	for _, e := range ctx.Entries {
 		if e.Err == "injected" {
 			ctx.Faulted = true
